@@ -604,13 +604,15 @@ class Module:
             t, p = s.parse_type(rest, 0); p = skipws(rest, p); pt, a, p = s.tv(rest, p + 1)
             rt = R(t)
             kind = 'p' if rt.__class__ in (Ptr, Func) else ('b' if rt.__class__ is Int and rt.bits == 1 else ('a' if rt.__class__ in (Struct, Arr, Vec) else 'i'))
-            return ('load', dst, kind, s.sizeof(t), a, rt)
+            nb = (rt.bits + 7) // 8 if rt.__class__ is Int else s.sizeof(t)      # i48 occupies 6 bytes in memory
+            return ('load', dst, kind, nb, a, rt)
         if op == 'store':
             rest = re.sub(r'^(atomic\s+)?(volatile\s+)?', '', rest)
             t, v, p = s.tv(rest); p = skipws(rest, p); pt, a, p = s.tv(rest, p + 1)
             rt = R(t)
             kind = 'a' if rt.__class__ in (Struct, Arr, Vec) else ('b' if rt.__class__ is Int and rt.bits == 1 else 'i')
-            return ('store', kind, s.sizeof(t), v, a, rt)
+            nb = (rt.bits + 7) // 8 if rt.__class__ is Int else s.sizeof(t)
+            return ('store', kind, nb, v, a, rt)
         if op == 'getelementptr':
             rest = re.sub(r'^inbounds\s+', '', rest)
             bt, p = s.parse_type(rest, 0); p = skipws(rest, p); pt, base, p = s.tv(rest, p + 1)
